@@ -1090,7 +1090,7 @@ fn read_additional_number_bytes(&mut self, mut length: u8)
                     self.type_and_value.number = (self.type_and_value.number << 8) | (value as u64);
                 }
                 Err(err) => {
-                    
+                    self.error(verif_format().as_str());
                 }
             }
             
